@@ -22,7 +22,6 @@ import (
 	"github.com/tochemey/goakt/v4/internal/internalpb"
 	inet "github.com/tochemey/goakt/v4/internal/net"
 	"github.com/tochemey/goakt/v4/internal/remoteclient"
-	"github.com/tochemey/goakt/v4/internal/verifhook"
 	"github.com/tochemey/goakt/v4/remote"
 	"github.com/tochemey/goakt/v4/verifharness/sched"
 	"github.com/tochemey/goakt/v4/verifharness/vtrace"
@@ -202,7 +201,11 @@ type rig struct {
 
 func newRig(srv *tellServer, tr tracer, maxBatch int, callers []string) *rig {
 	r := &rig{srv: srv, tr: tr, from: map[string]*address.Address{}}
+	var nDead atomic.Int64
 	onErr := func(_ string, msgs []*internalpb.RemoteMessage, _ error) {
+		if nDead.Add(1) > 500 {
+			return // a writer that fails the same batch over and over: 500 dead-letter lines say enough
+		}
 		ids := make([]int, 0, len(msgs))
 		for _, m := range msgs {
 			ids = append(ids, decodeID(srv.dec, m))
@@ -346,6 +349,9 @@ func runWalk(b []step, srv *tellServer, tr tracer, maxBatch int, st *replayStats
 	if withClose {
 		if _, err := s.Go("x", func() {
 			s.Yield("call", 0, 0)
+			// logged BEFORE the call: whatever is accepted after this line may have been sent after done was closed
+			// (class "late" of the monitor); what was accepted before it was certainly sent before
+			tr.put(line{Op: "xclose"})
 			r.cl.Close()
 			closed.Store(true)
 		}); err != nil {
@@ -472,6 +478,7 @@ walk:
 	tr.put(line{Op: "Free", Br: status})
 	s.FreeRun()
 	if !withClose {
+		tr.put(line{Op: "xclose"})
 		r.cl.Close()
 		closed.Store(true)
 	}
@@ -547,17 +554,6 @@ func coalReplayMain(args []string) {
 
 // ---------------------------------------------------------------- coal-stress
 
-// obsHandler logs the moment close(done) has happened (hook coal.close.wait) so that the monitor can tell
-// messages accepted before the close began from those accepted afterwards.
-type obsHandler struct{ tr tracer }
-
-func (o obsHandler) At(point string, _ any, _, _ int64) {
-	if point == "coal.close.wait" || point == "coal.close.lock" {
-		o.tr.put(line{Op: "xclose", Br: point})
-	}
-}
-func (o obsHandler) Fault(string, any, int64) int { return 0 }
-
 func coalStressMain(args []string) {
 	if len(args) != 6 {
 		fatal("usage: remoting coal-stress <maxBatch> <callers> <msgs> <histories> <seed> <trace>")
@@ -576,8 +572,6 @@ func coalStressMain(args []string) {
 	dec := remoteclient.NewClient().Serializer(nil)
 	srv := startTellServer(dec)
 	srv.tr.Store(&tr)
-	verifhook.Install(obsHandler{tr})
-	defer verifhook.Uninstall()
 	stuck := 0
 	for h := 0; h < histories; h++ {
 		tr.put(line{Op: "New", B: maxBatch})
@@ -635,6 +629,7 @@ func coalStressMain(args []string) {
 		}
 		doneCh := make(chan struct{})
 		go func() {
+			tr.put(line{Op: "xclose"}) // before the call, see runWalk
 			r.cl.Close()
 			wg.Wait()
 			// a RemoteTell that raced with Close may have made the client build a fresh coalescer: close again so that
